@@ -298,6 +298,16 @@ func genC06(master uint64, idx int) *Workload {
 	return w
 }
 
+// heavyDocs: some document of the workload is larger than 60 KB of JSON text.
+func heavyDocs(ds []DocSpec) bool {
+	for _, d := range ds {
+		if len(d.Text) > 60000 {
+			return true
+		}
+	}
+	return false
+}
+
 var c12Modes = []string{"shared-expr-shared-doc", "shared-expr-private-docs", "diff-exprs-one-doc", "compile-same", "compile-diff", "compile-vs-search", "oneshot-mix", "parse-mix", "many-searches", "many-exprs"}
 
 func genC12(master uint64, idx int) *Workload {
@@ -330,6 +340,12 @@ func genC12(master uint64, idx int) *Workload {
 	_ = src
 	nc := 2 + r.Intn(3)
 	nops := func() int { return 1 + r.Intn(3) }
+	if idx >= 2*len(systematic) && r.Chance(1, 10) {
+		// a crowd: 5-8 callers in flight at once (bounded free lists, semaphores and queues
+		// sized for "a few" concurrent calls)
+		nc = 5 + r.Intn(4)
+		nops = func() int { return 1 + r.Intn(2) }
+	}
 	switch w.Mode {
 	case "shared-expr-shared-doc":
 		w.Docs = []DocSpec{d}
@@ -433,7 +449,11 @@ func genC12(master uint64, idx int) *Workload {
 		nc = 3 + r.Intn(2)
 		for c := 0; c < nc; c++ {
 			var ops []Op
-			for o := 30 + r.Intn(50); o > 0; o-- {
+			no := 30 + r.Intn(50)
+			if heavyDocs(w.Docs) {
+				no = 3 + r.Intn(4) // very large documents: a few searches are a long run already
+			}
+			for o := no; o > 0; o-- {
 				ops = append(ops, Op{Kind: "search", Expr: 0, Doc: r.Intn(len(w.Docs))})
 			}
 			w.Clients = append(w.Clients, ops)
